@@ -64,6 +64,19 @@ func pingRoundTrips(r *sx.Report) {
 	req.SetURIString("/ping")
 	resp, err := client.ProcessCommand(ctx, req)
 	check("client-to-server", resp, err, "ping-1")
+	// an addressed ping: the reply goes to the request's sender and names the request's
+	// destination - exactly as it was written - as its origin
+	req3 := &lime.RequestCommand{}
+	req3.ID = "ping-3"
+	req3.Method = lime.CommandMethodGet
+	req3.SetURIString("/ping")
+	req3.From = lime.Node{Identity: lime.Identity{Name: "someone", Domain: "elsewhere.test"}, Instance: "x"}
+	req3.To = lime.Node{Identity: lime.Identity{Name: "postmaster", Domain: "srv.test"}} // no instance
+	resp3, err3 := client.ProcessCommand(ctx, req3)
+	check("client-to-server/addressed", resp3, err3, "ping-3")
+	if err3 == nil && resp3 != nil && (resp3.From != req3.To || resp3.To != req3.From) {
+		r.Fail("ping:client-to-server:addressing", fmt.Sprintf("ping %v -> %v was answered from %v to %v", req3.From, req3.To, resp3.From, resp3.To), map[string]string{"case": "ping auto-reply", "direction": "client-to-server/addressed"})
+	}
 	select {
 	case sc := <-estab:
 		req2 := &lime.RequestCommand{}
